@@ -196,6 +196,10 @@ def _const_key(o):
         return ("v", type(o).__name__, o if o == o else "nan")
     if isinstance(o, pytypes.MethodType):
         return ("m", id(o.__func__), id(o.__self__))
+    if isinstance(o, pytypes.BuiltinMethodType) and getattr(o, "__self__", None) is not None and not isinstance(o.__self__, pytypes.ModuleType):
+        return ("bm", id(o.__self__), o.__name__)
+    if isinstance(o, (pytypes.MethodDescriptorType, pytypes.WrapperDescriptorType, pytypes.ClassMethodDescriptorType)):
+        return ("md", id(o.__objclass__), o.__name__)
     return ("i", id(o))
 
 
@@ -227,6 +231,8 @@ class Engine:
         self.elem = z3.Function("elem", V, V, B)  # membership in an iterated source
         self.iterable = z3.Function("iterable", V, B)
         self.attr_names = set()
+        self.opaque_cache = {}
+        self.items_of = {}  # id of a named comprehension source -> the mapping whose .items() it is
         self.class_consts = {}  # const key -> class object seen
         self.trusted = set()
         for o in (None, True, False):
@@ -276,6 +282,10 @@ class Engine:
         none = self.const(None)
         ax.append(z3.ForAll([x], self.pyeq(x, none) == (x == none), patterns=[self.pyeq(x, none)]))
         ax.append(z3.ForAll([x], self.pyeq(none, x) == (x == none), patterns=[self.pyeq(none, x)]))
+        if getattr(self, "uses_unitems", False):
+            m = z3.Const("m!unitems", self.V)
+            items = self._callfn(Call(("meth", "items"), "items", [Tm(m)]))
+            ax.append(z3.ForAll([m], self.func("unitems", self.V, self.V)(items(m)) == m, patterns=[items(m)]))
         cs = list(self.consts.values())
         if len(cs) > 1:
             ax.append(z3.Distinct(*cs))
@@ -318,9 +328,45 @@ class Engine:
             f = self.func(f"mkdict!{len(v.items)}!{kn}", *([self.V] * len(v.items)), self.V)
             return f(*[self.term(a) for _, a in v.items]) if v.items else f()
         if isinstance(v, (Comp, KeySet)):
-            # opaque: a fresh object (sound, incomplete)
-            return self.fresh("opaque_" + type(v).__name__)
+            # opaque object, hash-consed on the canonical structure (alpha-renamed bound variables):
+            # syntactically equal comprehensions denote the same term (sound: they are equal values
+            # up to identity, and identity of fresh containers is never compared through terms)
+            key = self.canon(v, [])
+            c = self.opaque_cache.get(key)
+            if c is None:
+                c = self.fresh("opaque_" + type(v).__name__)
+                self.opaque_cache[key] = c
+            return c
         raise NotInSubset(f"term of {type(v).__name__}")
+
+    def canon(self, v, sub):
+        """canonical string of a SymVal tree; sub = [(bound const, canonical const)]"""
+        if isinstance(v, Tm):
+            t = z3.substitute(v.t, *sub) if sub else v.t
+            return "T:" + z3.simplify(t).sexpr()
+        if isinstance(v, Bl):
+            t = z3.substitute(v.b, *sub) if sub else v.b
+            return "B:" + z3.simplify(t).sexpr()
+        if isinstance(v, Ob):
+            return "O:" + repr(_const_key(v.o))
+        if isinstance(v, Ite):
+            c = z3.substitute(v.c, *sub) if sub else v.c
+            return f"I({z3.simplify(c).sexpr()},{self.canon(v.a, sub)},{self.canon(v.b, sub)})"
+        if isinstance(v, Call):
+            return f"C[{v.name}!{_keystr(v.key)}](" + ",".join([self.canon(a, sub) for a in v.args] + [f"{k}={self.canon(a, sub)}" for k, a in v.kw]) + ")"
+        if isinstance(v, LL):
+            return f"L[{v.kind}](" + ",".join(self.canon(a, sub) for a in v.items) + ")"
+        if isinstance(v, LD):
+            return "D{" + ",".join(f"{_const_key(k)!r}:{self.canon(a, sub)}" for k, a in v.items) + "}"
+        if isinstance(v, Comp):
+            depth = len(sub)
+            new = [z3.Const(f"bv!{depth + i}", self.V) for i in range(len(v.bound))]
+            sub2 = sub + list(zip(v.bound, new))
+            body = (self.canon(v.body[0], sub2) + "=>" + self.canon(v.body[1], sub2)) if v.kind == "dict" else self.canon(v.body, sub2)
+            return f"K[{v.kind},{v.pattern}]({body} for {self.canon(v.src, sub)})"
+        if isinstance(v, KeySet):
+            return f"KS({self.canon(v.d, sub)}-{sorted(repr(_const_key(c)) for c in v.minus)})"
+        raise NotInSubset(f"canon of {type(v).__name__}")
 
     def _callfn(self, v):
         n = len(v.args) + len(v.kw)
@@ -378,15 +424,71 @@ class Engine:
             return z3.If(b.c, self.is_(a, b.a), self.is_(a, b.b))
         return self.term(a) == self.term(b)
 
+    def norm(self, v):
+        """a comprehension with identity body and x.copy() both denote a fresh shallow copy"""
+        if isinstance(v, Comp):
+            if v.kind == "list" and v.pattern == "name" and self._is_identity(v.body, v.bound[0]):
+                return Call(("freshcopy",), "freshcopy", [v.src])
+            if (v.kind == "dict" and v.pattern == ("tuple", 2) and self._is_identity(v.body[0], v.bound[0])
+                    and self._is_identity(v.body[1], v.bound[1])):
+                return Call(("freshcopy",), "freshcopy", [Tm(self.unitems(self.term(v.src)))])
+        if isinstance(v, Call) and v.key == ("meth", "copy") and len(v.args) == 1 and not v.kw:
+            return Call(("freshcopy",), "freshcopy", [v.args[0]])
+        return v
+
+    def _is_identity(self, body, b):
+        """does the (pure, scalar) body denote the bound variable itself?  e.g.
+        `value if value is not None else None`"""
+        if isinstance(body, Tm):
+            return z3.eq(body.t, b)
+        if isinstance(body, Ite) and not _has_fresh(body):
+            def scalar(x):
+                return isinstance(x, (Tm, Ob)) or (isinstance(x, Ite) and scalar(x.a) and scalar(x.b))
+            if not scalar(body):
+                return False
+            s = z3.Solver()
+            s.set("timeout", 2000)
+            s.add(self.term(body) != b)
+            return s.check() == z3.unsat
+        return False
+
+    def unitems(self, t):
+        """the mapping m such that t = m.items()"""
+        self.uses_unitems = True
+        return self.func("unitems", self.V, self.V)(t)
+
+    def _items_arg(self, src):
+        t = self.term(src)
+        if t.get_id() in self.items_of:
+            return self.items_of[t.get_id()]
+        if z3.is_app(t) and t.decl().name().startswith("call!items!") and t.num_args() == 1:
+            return t.arg(0)
+        return t
+
     def eq_struct(self, a, b):
         """sufficient condition for 'a and b denote equal values built from the same classes'
         (structural congruence; extensional for comprehensions)"""
+        a, b = self.norm(a), self.norm(b)
+        # asymmetric (a = code, b = specification): where the specification allows the input
+        # container itself to be returned (no_copy_collections), returning a fresh shallow copy of
+        # it is equal as a value and shares less; the converse (aliasing where the specification
+        # demands a copy) is not accepted
+        if isinstance(a, Call) and a.key == ("freshcopy",) and isinstance(b, (Tm, Ite)) and not _has_fresh(b):
+            return self.eq_struct(a.args[0], b)
         if isinstance(a, Ite):
             return z3.And(z3.Implies(a.c, self.eq_struct(a.a, b)), z3.Implies(z3.Not(a.c), self.eq_struct(a.b, b)))
         if isinstance(b, Ite):
             return z3.And(z3.Implies(b.c, self.eq_struct(a, b.a)), z3.Implies(z3.Not(b.c), self.eq_struct(a, b.b)))
         if isinstance(a, Ob) and isinstance(b, Ob):
-            return z3.BoolVal(_const_eq(a.o, b.o))
+            if _const_eq(a.o, b.o):
+                return z3.BoolVal(True)
+            # type hints (typing / types.GenericAlias objects) are values: compare with ==
+            if type(a.o) is type(b.o) and type(a.o).__module__ in ("typing", "types", "typing_extensions"):
+                try:
+                    return z3.BoolVal(bool(a.o == b.o))
+                except Exception:
+                    pass
+            return z3.BoolVal(False)
         if isinstance(a, Bl) and isinstance(b, Bl):
             return a.b == b.b
         if isinstance(a, LD) and isinstance(b, LD):
@@ -447,6 +549,18 @@ class Engine:
 
 def _pat(mem):
     return mem
+
+
+def _has_ite(t, _seen=None):
+    seen = _seen if _seen is not None else set()
+    if t.get_id() in seen:
+        return False
+    seen.add(t.get_id())
+    if z3.is_app(t):
+        if t.decl().kind() == z3.Z3_OP_ITE:
+            return True
+        return any(_has_ite(c, seen) for c in t.children())
+    return True
 
 
 def _keystr(key):
@@ -516,8 +630,9 @@ class Exc:
 
 
 class Path:
-    def __init__(self, pc, kind, value, env=None, ghosts=None):
-        self.pc = pc  # list of z3 Bool
+    def __init__(self, pc, kind, value, env=None, ghosts=None, branch=None):
+        self.branch = branch if branch is not None else list(pc)  # branch conditions only
+        self.pc = pc  # list of z3 Bool (branch conditions + definitional hypotheses)
         self.kind = kind  # 'return' | 'raise'
         self.value = value  # SymVal | Exc
         self.env = env
@@ -528,14 +643,15 @@ class Path:
 
 
 class State:
-    def __init__(self, env, pc=None, cur_exc=None, ghosts=None):
+    def __init__(self, env, pc=None, cur_exc=None, ghosts=None, hyps=None):
         self.env = env
-        self.pc = pc or []
+        self.pc = pc or []  # branch conditions
+        self.hyps = hyps or []  # definitional hypotheses (facts about fresh symbols, A3)
         self.cur_exc = cur_exc
         self.ghosts = ghosts or []  # ordered log of ghost events (call events)
 
     def clone(self):
-        return State(dict(self.env), list(self.pc), self.cur_exc, list(self.ghosts))
+        return State(dict(self.env), list(self.pc), self.cur_exc, list(self.ghosts), list(self.hyps))
 
 
 _MAXPATHS = 40000
@@ -558,6 +674,8 @@ class Executor:
         self.attr_fail = []  # (expr text, lineno) attribute walks on concrete objects that fail
         self.nonraising = set()  # callee keys assumed not to raise
         self.assume_hasattr = False  # precondition: receivers conform to their annotations
+        self.inline = {}  # function name -> (FunctionDef, namespace, binds_first: 'cls'|'self'|None)
+        self.inline_depth = 0
         self.trace_calls = []
 
     # ---------------- entry
@@ -589,11 +707,11 @@ class Executor:
         out = []
         for st, sig in self.exec_block(fn.body, st0):
             if sig is None:
-                out.append(Path(st.pc, "return", Ob(None), st.env, st.ghosts))
+                out.append(Path(st.pc + st.hyps, "return", Ob(None), st.env, st.ghosts, st.pc))
             elif sig[0] == "return":
-                out.append(Path(st.pc, "return", sig[1], st.env, st.ghosts))
+                out.append(Path(st.pc + st.hyps, "return", sig[1], st.env, st.ghosts, st.pc))
             elif sig[0] == "raise":
-                out.append(Path(st.pc, "raise", sig[1], st.env, st.ghosts))
+                out.append(Path(st.pc + st.hyps, "raise", sig[1], st.env, st.ghosts, st.pc))
             else:
                 raise NotInSubset(f"signal {sig[0]} escapes function")
         return out
@@ -634,12 +752,14 @@ class Executor:
         prev = []
         for (cond, exc) in ctx.raises:
             s2 = st.clone()
-            s2.pc = s2.pc + [z3.Not(p) for p in prev] + [cond] + ctx.hyps
+            s2.pc = s2.pc + [z3.Not(p) for p in prev] + [cond]
+            s2.hyps = s2.hyps + ctx.hyps
             s2.ghosts = s2.ghosts + [g for g in ctx.ghosts_before(cond)]
             bad.append((s2, exc))
             prev.append(cond)
         s1 = st.clone()
-        s1.pc = s1.pc + [z3.Not(p) for p in prev] + ctx.hyps
+        s1.pc = s1.pc + [z3.Not(p) for p in prev]
+        s1.hyps = s1.hyps + ctx.hyps
         s1.ghosts = s1.ghosts + ctx.ghosts
         oks.append((s1, v))
         return oks, bad
@@ -656,6 +776,17 @@ class Executor:
     def st_Expr(self, s, st):
         if isinstance(s.value, ast.Constant):
             return [(st, None)]
+        v = s.value
+        if (isinstance(v, ast.Call) and isinstance(v.func, ast.Attribute) and v.func.attr == "append"
+                and isinstance(v.func.value, ast.Name) and isinstance(st.env.get(v.func.value.id), LL)
+                and len(v.args) == 1 and not v.keywords):
+            oks, bad = self._fork_eval(v.args[0], st)
+            out = [(b, ("raise", e)) for b, e in bad]
+            for a, x in oks:
+                cur = a.env[v.func.value.id]
+                a.env[v.func.value.id] = LL(cur.kind, cur.items + [x])
+                out.append((a, None))
+            return out
         oks, bad = self._fork_eval(s.value, st)
         return [(a, None) for a, _ in oks] + [(b, ("raise", e)) for b, e in bad]
 
@@ -668,14 +799,25 @@ class Executor:
     def st_Assign(self, s, st):
         oks, bad = self._fork_eval(s.value, st)
         out = [(b, ("raise", e)) for b, e in bad]
-        for a, v in oks:
-            for tgt in s.targets:
-                out_states = self.assign(tgt, v, a)
-                if len(out_states) != 1:
-                    raise NotInSubset("forking assignment target", s)
-                a = out_states[0]
-            out.append((a, None))
+        for a0, v0 in oks:
+            # split a conditional value into one state per alternative: values stay ite-free
+            for a, v in self._split_ite(a0, v0):
+                for tgt in s.targets:
+                    out_states = self.assign(tgt, v, a)
+                    if len(out_states) != 1:
+                        raise NotInSubset("forking assignment target", s)
+                    a = out_states[0]
+                out.append((a, None))
         return out
+
+    def _split_ite(self, st, v, depth=0):
+        if isinstance(v, Ite) and depth < 4:
+            t = st.clone()
+            t.pc.append(v.c)
+            f = st.clone()
+            f.pc.append(z3.Not(v.c))
+            return self._split_ite(t, v.a, depth + 1) + self._split_ite(f, v.b, depth + 1)
+        return [(st, v)]
 
     def assign(self, tgt, v, st):
         if isinstance(tgt, ast.Name):
@@ -1026,6 +1168,8 @@ class Executor:
                     items.extend(v.items)
                 elif isinstance(v, Ob) and isinstance(v.o, (tuple, list)):
                     items.extend(Ob(x) for x in v.o)
+                elif isinstance(v, Ob) and type(v.o).__module__ in ("typing", "types", "typing_extensions"):
+                    items.extend(Ob(x) for x in list(v.o))  # *Tuple[...] in a type expression
                 else:
                     items.append(Call(("star",), "star", [v]))
             else:
@@ -1070,7 +1214,7 @@ class Executor:
                     parts.append(None)
                 else:
                     pv = self.eval(p, st, ctx)
-                    if not (isinstance(pv, Ob) and isinstance(pv.o, int)):
+                    if not (isinstance(pv, Ob) and (isinstance(pv.o, int) or pv.o is None)):
                         raise NotInSubset("non-constant slice bound", node)
                     parts.append(pv.o)
             key = ("slice",) + tuple(parts)
@@ -1088,6 +1232,8 @@ class Executor:
             except IndexError:
                 ctx.add_raise(z3.BoolVal(True), Exc(Ob(IndexError), []))
                 return Tm(self.eng.fresh("noitem"))
+        if isinstance(base, Ob) and isinstance(idx, LL) and idx.kind == "tuple" and all(isinstance(x, Ob) for x in idx.items):
+            idx = Ob(tuple(x.o for x in idx.items))
         if isinstance(base, Ob) and isinstance(idx, Ob):
             try:
                 return Ob(base.o[idx.o])
@@ -1125,6 +1271,16 @@ class Executor:
         if isinstance(src, (LL,)):
             raise NotInSubset("comprehension over a local display", node)
         srct = eng.term(src)
+        if _has_ite(srct):
+            # patterns may not contain ite terms: name the source
+            if getattr(ctx, "in_comp", False):
+                raise NotInSubset("conditional iteration source inside a comprehension", node)
+            nm = eng.fresh("src")
+            ctx.hyps.append(nm == srct)
+            if isinstance(src, Call) and src.key == ("meth", "items"):
+                self._items_of = getattr(self, "_items_of", {})
+                eng.items_of[nm.get_id()] = eng.term(src.args[0])
+            srct = nm
         ctx.add_raise(z3.Not(eng.iterable(srct)), Exc(Ob(TypeError), [], origin="not iterable"))
         if isinstance(g.target, ast.Name):
             names = [g.target.id]
@@ -1136,6 +1292,7 @@ class Executor:
             raise NotInSubset("comprehension target", node)
         bound = [eng.fresh(f"b_{n}") for n in names]
         inner = EvalCtx()
+        inner.in_comp = True
         inner.scopes = dict(ctx.scopes)
         # comprehension scope: loop variables shadow everything
         st2 = st.clone()
@@ -1183,7 +1340,7 @@ class Executor:
                 elif isinstance(v, Ob) and isinstance(v.o, (tuple, list)):
                     args.extend(Ob(x) for x in v.o)
                 else:
-                    raise NotInSubset("* of a symbolic sequence", node)
+                    args.append(Call(("star",), "star", [v]))
             else:
                 args.append(self.eval(a, st, ctx))
         kw = []
@@ -1210,6 +1367,11 @@ class Executor:
             r = h(self, recv, name, args, kw, node, st, ctx)
             if r is not None:
                 return r
+        if name in self.inline and not isinstance(recv, (LD, LL, Comp, KeySet)):
+            fdef, ns, binds = self.inline[name]
+            params = [a.arg for a in fdef.args.posonlyargs + fdef.args.args]
+            if params and params[0] in ("self", "cls"):
+                return self._inline_def(fdef, ns, [recv] + list(args), kw, node, ctx)
         if isinstance(recv, LD):
             if name == "get" and args and isinstance(args[0], Ob):
                 v = recv.get(args[0].o)
@@ -1250,6 +1412,9 @@ class Executor:
                 return r
         if isinstance(fn, Ob):
             o = fn.o
+            r = self._try_inline(o, args, kw, node, st, ctx)
+            if r is not None:
+                return r
             if isinstance(o, tuple) and o and o[0] == "boundlocal":
                 return self.method_call(o[1], o[2], args, kw, node, st, ctx)
             if o is isinstance and len(args) == 2:
@@ -1290,6 +1455,65 @@ class Executor:
         # callee is symbolic (e.g. a parameter holding a function)
         t = eng.term(fn)
         return self.opaque_call(("dyn",), "dyncall", [Tm(t)] + args, kw, ctx, node)
+
+    def _try_inline(self, o, args, kw, node, st, ctx):
+        if not self.inline:
+            return None
+        first = None
+        f = o
+        if isinstance(o, pytypes.MethodType):
+            f = o.__func__
+            first = Ob(o.__self__)
+        if isinstance(f, tuple) and len(f) == 2 and f[0] == "closure":
+            name = f[1].name
+        else:
+            name = getattr(f, "__name__", None)
+        ent = self.inline.get(name)
+        if ent is None:
+            return None
+        fdef, ns, binds = ent
+        call_args = ([first] if first is not None else []) + list(args)
+        return self._inline_def(fdef, ns, call_args, kw, node, ctx)
+
+    def _inline_def(self, fdef, ns, call_args, kw, node, ctx):
+        if self.inline_depth > 6:
+            raise NotInSubset("inlining depth", node)
+        sub = Executor(self.eng, ns, hooks=self.hooks)
+        sub.nonraising = self.nonraising
+        sub.assume_hasattr = self.assume_hasattr
+        sub.inline = self.inline
+        sub.inline_depth = self.inline_depth + 1
+        sub.ghost_calls = self.ghost_calls
+        params = [a.arg for a in fdef.args.posonlyargs + fdef.args.args]
+        if len(call_args) > len(params):
+            raise NotInSubset("too many arguments for an inlined function", node)
+        amap = dict(zip(params, call_args))
+        for k, v in kw:
+            amap[k] = v
+        paths = sub.run(fdef, amap)
+        self.unresolved.extend(sub.unresolved)
+        self.attr_fail.extend(sub.attr_fail)
+        return self.merge_paths(paths, ctx)
+
+    def merge_paths(self, paths, ctx):
+        """summary of a function body as a merged value + guarded raise entries"""
+        rets = [p for p in paths if p.kind == "return"]
+        val = None
+        for p in paths:
+            for h in p.pc[len(p.branch):]:
+                ctx.hyps.append(h)
+        for p in paths:
+            if p.kind == "raise":
+                ctx.add_raise(z3.And(*p.branch) if p.branch else z3.BoolVal(True), p.value)
+            ctx.ghosts.extend(("guarded", z3.And(*p.branch) if p.branch else z3.BoolVal(True), g) for g in p.ghosts)
+        for p in reversed(rets):
+            if val is None:
+                val = p.value
+            else:
+                val = Ite(z3.And(*p.branch) if p.branch else z3.BoolVal(True), p.value, val)
+        if val is None:
+            val = Tm(self.eng.fresh("noreturn"))
+        return val
 
     def isinstance_(self, v, cls, node):
         eng = self.eng
@@ -1342,7 +1566,9 @@ class EvalCtx:
             self._ghost_marks = parent._ghost_marks
 
     def guarded(self, c):
-        return EvalCtx(self.guard + [c], self)
+        e = EvalCtx(self.guard + [c], self)
+        e.in_comp = getattr(self, "in_comp", False)
+        return e
 
     def guard_cond(self):
         return z3.And(*self.guard) if self.guard else z3.BoolVal(True)
